@@ -32,7 +32,7 @@ var propPlans = []propPlan{
 		NotDecided: "equality of declared and actual media time (needs the samples); PART-TARGET >= every part beyond 'ceil of max over listed parts'.",
 		LevelText:  "Telescoping of durations, monotone target duration, rounding directions, hold-back/skip factors and text resolution are decided structurally."},
 	{ID: "C04", Title: "Playlist evolution",
-		Rules:      []string{"CG0", "G3", "F2", "N1", "N2", "L8", "P3"},
+		Rules:      []string{"CG0", "G3", "G8", "G9", "F2", "N1", "N2", "L8", "P3"},
 		NotDecided: "the relation between two successive responses (a history property) beyond the per-step invariants; arithmetic on runtime counters.",
 		LevelText:  "Per-step inductive invariants of the window and its counters are decided on every path of the rotation functions."},
 	{ID: "C05", Title: "Advertised URIs are fetchable, immutable, consistent",
@@ -40,7 +40,7 @@ var propPlans = []propPlan{
 		NotDecided: "byte equality of a segment and its concatenated parts on disk (offset arithmetic); HTTP semantics outside the handlers.",
 		LevelText:  "Publication protocol: final before published, never written afterwards without the reader's lock, listed = registered, unregistered on expiry, response shape."},
 	{ID: "C06", Title: "Blocking reload, preload hints, delta updates",
-		Rules:      []string{"CG0", "L1", "L2", "L3", "F3", "G7", "G8", "N2"},
+		Rules:      []string{"CG0", "L1", "L2", "L3", "L8", "F3", "G7", "G8", "G9", "N2"},
 		NotDecided: "which (M,P) are accepted or rejected (unsigned arithmetic on runtime counters); what the unblocked response contains; telling an absent _HLS_part from _HLS_part=0.",
 		LevelText:  "Wait/wake discipline over all schedules, _HLS_* filtering, delta-update shape and roll-over reaching the open segment."},
 	{ID: "C07", Title: "Close unblocks every request and releases storage",
@@ -48,7 +48,7 @@ var propPlans = []propPlan{
 		NotDecided: "'promptly' as a time bound; disk I/O latency under the lock.",
 		LevelText:  "Every waiter leaves on a closed flag that Close sets under the lock before broadcasting; no lock leaks on any path; every owned file is released. Argued sufficient (DESIGN 4, C07) for the sub-statement 'every blocked request completes non-200 after Close, no lock left held, every created file removed' under every interleaving, given monitor semantics."},
 	{ID: "C08", Title: "One writer + concurrent readers",
-		Rules:      []string{"CG0", "L1", "L3", "L4", "L5", "L6", "P1", "P2", "V4b"},
+		Rules:      []string{"CG0", "L1", "L3", "L4", "L5", "L6", "L8", "P1", "P2", "V4b"},
 		NotDecided: "absence of every panic (nil dereferences are not modelled); single-playlist invariants of a snapshot; monotonic views.",
 		LevelText:  "Every location shared between writer and request goroutines is co-locked or frozen before publication (lockset + ownership analysis over all contexts); no zero divisor in handler code."},
 	{ID: "C09", Title: "A Client reading a Muxer",
@@ -60,7 +60,7 @@ var propPlans = []propPlan{
 		NotDecided: "all timestamp arithmetic (rescaling, 33-bit unwrap, NTP extrapolation); sample identity.",
 		LevelText:  "Thin: no negative-time delivery, all times through the leading converter, the stream/track hand-shake cannot wedge."},
 	{ID: "C11", Title: "Segment selection",
-		Rules:      []string{"CG0", "F7", "N3"},
+		Rules:      []string{"CG0", "F7", "N3", "K5"},
 		NotDecided: "index arithmetic against a moving MEDIA-SEQUENCE; Range header values.",
 		LevelText:  "Start/next/limit constants, re-fetch and throttle between downloads, URL resolution, delta request, EOS sentinel."},
 	{ID: "C12", Title: "Client termination",
